@@ -149,7 +149,11 @@ def dispatcher(ctx):
             continue
         if st.verb == "INSERT" and st.table.lower() == "duplicates":
             cols = [c.lower() for c in (st.columns or ["idspecid", "newid"])]
-            dups.append(dict(zip(cols, e[2])) if isinstance(e[2], (list, tuple)) else None)
+            if isinstance(e[2], dict):
+                # named placeholders: the value bound to each column of the VALUES list
+                dups.append({c: e[2].get(v[2]) if (isinstance(v, tuple) and v[0] == "param" and v[2] != "?") else v for c, v in zip(cols, st.values)})
+            else:
+                dups.append(dict(zip(cols, e[2])) if isinstance(e[2], (list, tuple)) else None)
     ctx.ob("R4", len(dups) >= 1, "a non-mergeable newcomer is recorded in `duplicates` (so later arrivals can find it)", func=dm,
            sig="duplicate bookkeeping present" if dups else "the dispatcher never records a renamed newcomer in `duplicates`")
     for d in dups[:1]:
@@ -206,43 +210,8 @@ def structural(ctx, sch):
                     ok = True
         ctx.ob("R2", ok, "start/end cannot be forced under 'merge' (rejected at construction)", func=init,
                sig="start/end in force_merge_fields -> ValueError" if ok else "start/end in force_merge_fields not rejected")
-    # candidates
-    from ..flow import Flow, show
-    cm = require_func(ctx, "create._DBCreator._candidate_merges")
-    pool = closure(ctx, cm)
-    fl = Flow(ctx, pool)
-    fparam = [p for p in cm.params if p != "self"][0]
-    KEY = ("attr", ("param", cm.qual, fparam), "id")
-    sel = [s for s in execute_sites(ctx, pool) if s.stmts and s.stmts[0].verb == "SELECT" and "duplicates" in s.stmts[0].tables() + [t_ for t_ in _tables(s.stmts[0])]]
-    ctx.floor("R4", len(sel), 1, "candidate queries")
-    spec = S.to_cq(S.parse("SELECT f.id FROM features f JOIN duplicates d ON d.newid = f.id WHERE d.idspecid = :key"), sch)
-    got = S.to_cq(sel[0].stmts[0], sch, {0: "key"})
-    import copy
-    g2 = copy.copy(got)
-    g2.proj = [t for t in got.proj if t[2] == "id"][:1]
-    eq = S.cq_equivalent(g2, spec)
-    ctx.ob("R4", eq, "merge candidates = features recorded in `duplicates` under the colliding key (D.newid = F.id, D.idspecid = key)", node=sel[0].call, func=sel[0].func,
-           sig="candidate query ≅ specification" if eq else "candidate query differs: " + got.describe())
-    pt = fl.terms(sel[0].params, sel[0].func) if sel[0].params is not None else set()
-    okp = pt in ({("op", "tuple", KEY)}, {("op", "list", KEY)})
-    ctx.ob("R4", okp, "the candidate query is bound to the colliding key", node=sel[0].call, func=sel[0].func, sig="candidate query bound to %s" % ", ".join(sorted(show(t) for t in pt)))
-    gets = [c for g in pool for c in calls_in(g.node) if call_attr(c) == "_get_feature" and c.args and fl.terms(c.args[0], g) == {KEY}]
-    ctx.ob("R4", bool(gets), "the feature stored under the key itself is a candidate", func=cm, sig="candidates include _get_feature(f.id)" if gets else "the feature stored under the key is not fetched")
-    adf = require_func(ctx, "create._DBCreator._add_duplicate")
-    from .. import sqlbind
-    ins = [s for s in execute_sites(ctx, closure(ctx, adf)) if s.stmts and s.stmts[0].verb == "INSERT" and enclosing(s.call, ast.ExceptHandler) is None]
-    ctx.floor("R4", len(ins), 1, "INSERT INTO duplicates sites")
-    flad = Flow(ctx, closure(ctx, adf))
-    for s in ins:
-        try:
-            rows = sqlbind.bound_rows(s, sch, s.func)
-        except sqlbind.Unbound as e:
-            ctx.ob("R4", False, "the duplicates row is bound to determinable values", node=s.call, func=s.func, sig="duplicates insert: %s" % e)
-            continue
-        for bind, _l in rows:
-            got_ = {k: sorted(show(t) for t in flad.terms(v, s.func)) for k, v in bind.items() if isinstance(k, str) and not isinstance(v, tuple)}
-            ok = s.stmts[0].table.lower() == "duplicates" and got_ == {"idspecid": [adf.params[1]], "newid": [adf.params[2]]} and adf.params[1:3] == ["idspecid", "newid"]
-            ctx.ob("R4", ok, "the duplicates row is (idspecid, newid) in that order", node=s.call, func=s.func, sig="duplicates row %s" % got_)
+    # merge candidates and the duplicates row: decided on the evaluated collisions (r_scenario: a differing newcomer is filed
+    # under K_1 with its duplicates row; a third arrival agreeing with K_1 is found through it -- in one import and across an update)
 
 
 def _tables(st):
@@ -409,3 +378,22 @@ def r_scenario(ctx):
         ctx.ob("R5", ok, "%s: a newcomer merged into an earlier '<key>_n' entry has its attributes and its links recorded for that entry (not for '<key>')" % name, func=m,
                sig="%s: merged into K_1" % name if ok else "%s: third arrival -> %s rows %s, K_1 attributes %s, relations missing %s unexpected %s" % (
                    name, t.result[:2], sorted(rows), a1, sorted(want_rel - rel)[:3], sorted(rel - want_rel)[:3]))
+        # ---- the same through update(): the '<key>_1' entry was filed by create_db, the third arrival comes with a later update
+        lines = _collision_lines(gtf, second_over=dict(source="b_src"), third=dict(source="b_src"))
+        im0, t0 = scen.run_create(ctx, cls, lines[:2], merge_strategy="merge", **extra)
+        fup = require_func(ctx, "interface.FeatureDB.update")
+        if scen.returned(ctx, t0, "%s create() with two colliding lines" % name, func=m, rule="R5"):
+            it_, me_, conn_, t1 = scen.open_feature_db(ctx, im0.db)
+            if scen.returned(ctx, t1, "FeatureDB(dbfn)", func=fup, rule="R5"):
+                t2 = scen.call_method(ctx, it_, me_, "interface.FeatureDB.update", data=[lines[2]], make_backup=False, merge_strategy="merge", **extra)
+                rows = {}
+                for r in im0.db.rows("features", keys):
+                    rows.setdefault(r[0], []).append(scen.decoded_row(r, keys))
+                rel = {r for r in im0.db.rows("relations") if r[2] == 1 or gtf}
+                a1 = rows.get("K_1", [{}])[0].get("attributes", {}) if rows.get("K_1") else {}
+                derived = {k for k in rows if rows[k][0].get("source") == "gffutils_derived"}
+                want_rel = _links(gtf, lines[0], "K") | _links(gtf, lines[1], "K_1") | _links(gtf, lines[2], "K_1")
+                ok = t2.result[0] == "return" and sorted(set(rows) - derived) == ["K", "K_1"] and sorted(a1.get("a", [])) == ["v2", "v4"] and want_rel <= rel
+                ctx.ob("R5", ok, "%s: in create_db followed by update alike -- a line arriving with a later update is merged into the '<key>_1' entry an earlier import filed" % name, func=fup,
+                       sig="%s: update merges into K_1" % name if ok else "%s: update with a third arrival -> %s features %s, K_1 attributes %s, relations missing %s" % (
+                           name, t2.result[:2], sorted(set(rows) - derived), a1, sorted(want_rel - rel)[:3]))
